@@ -160,13 +160,15 @@ pub struct Machine {
     pub base_rows: usize,
 }
 
-fn fact(x: i128, a: i128) -> core::result::Result<i64, MErr> {
-    let p = x * a;
-    if p > i64::MAX as i128 || p < i64::MIN as i128 {
-        Err(MErr::OutOfModel)
-    } else {
-        Ok(p as i64)
+fn fact(x: i64, a: i64) -> core::result::Result<i64, MErr> {
+    // factored offset * data alignment factor; leaving the 64-bit range = not a well-formed program
+    x.checked_mul(a).ok_or(MErr::OutOfModel)
+}
+fn ufact(x: u64, a: i64) -> core::result::Result<i64, MErr> {
+    if x > i64::MAX as u64 {
+        return Err(MErr::OutOfModel);
     }
+    fact(x as i64, a)
 }
 
 impl Machine {
@@ -176,17 +178,14 @@ impl Machine {
         let amax: u128 = if self.asz == 8 { u64::MAX as u128 } else { (1u128 << (8 * self.asz)) - 1 };
         let ca = self.code_align;
         let adv = |delta: u64| -> core::result::Result<Option<u64>, MErr> {
-            let d = delta as u128 * ca as u128;
-            if d > u64::MAX as u128 {
-                return Err(MErr::OutOfModel);
-            }
-            let e = start as u128 + d;
+            let Some(d) = delta.checked_mul(ca) else { return Err(MErr::OutOfModel) };
+            let e = start as u128 + d as u128;
             if e > amax {
                 return Err(MErr::AddressOverflow);
             }
             Ok(Some(e as u64))
         };
-        let da = self.data_align as i128;
+        let da = self.data_align;
         let cap = self.rule_cap;
         match ins {
             CI::Nop => {}
@@ -198,11 +197,11 @@ impl Machine {
                 }
                 return Ok(Some(a));
             }
-            CI::Offset(r) => self.state.set((r & 0x3f) as u16, MRule::Offset(fact(a as i128, da)?), cap)?,
-            CI::OffsetExt(r) => self.state.set(r, MRule::Offset(fact(a as i128, da)?), cap)?,
-            CI::OffsetExtSf(r) => self.state.set(r, MRule::Offset(fact(sv as i128, da)?), cap)?,
-            CI::ValOffset(r) => self.state.set(r, MRule::ValOffset(fact(a as i128, da)?), cap)?,
-            CI::ValOffsetSf(r) => self.state.set(r, MRule::ValOffset(fact(sv as i128, da)?), cap)?,
+            CI::Offset(r) => self.state.set((r & 0x3f) as u16, MRule::Offset(ufact(a, da)?), cap)?,
+            CI::OffsetExt(r) => self.state.set(r, MRule::Offset(ufact(a, da)?), cap)?,
+            CI::OffsetExtSf(r) => self.state.set(r, MRule::Offset(fact(sv, da)?), cap)?,
+            CI::ValOffset(r) => self.state.set(r, MRule::ValOffset(ufact(a, da)?), cap)?,
+            CI::ValOffsetSf(r) => self.state.set(r, MRule::ValOffset(fact(sv, da)?), cap)?,
             CI::Restore(_) | CI::RestoreExt(_) => {
                 let r = match ins {
                     CI::Restore(r) => (r & 0x3f) as u16,
@@ -235,7 +234,7 @@ impl Machine {
                 self.state = self.saved[self.depth].unwrap();
             }
             CI::DefCfa(r) => self.state.cfa = MCfa::RegOff(r, a as i64),
-            CI::DefCfaSf(r) => self.state.cfa = MCfa::RegOff(r, fact(sv as i128, da)?),
+            CI::DefCfaSf(r) => self.state.cfa = MCfa::RegOff(r, fact(sv, da)?),
             CI::DefCfaRegister(r) => match self.state.cfa {
                 MCfa::RegOff(_, o) => self.state.cfa = MCfa::RegOff(r, o),
                 _ => return Err(MErr::InvalidContext),
@@ -245,7 +244,7 @@ impl Machine {
                 _ => return Err(MErr::InvalidContext),
             },
             CI::DefCfaOffsetSf => match self.state.cfa {
-                MCfa::RegOff(r, _) => self.state.cfa = MCfa::RegOff(r, fact(sv as i128, da)?),
+                MCfa::RegOff(r, _) => self.state.cfa = MCfa::RegOff(r, fact(sv, da)?),
                 _ => return Err(MErr::InvalidContext),
             },
             CI::DefCfaExpr(len) => self.state.cfa = MCfa::Expr(a as usize, len as usize),
